@@ -671,3 +671,53 @@ CHECKS = {
         exhaustive_key="configs_complete", exhaustive_over="the enumerated configuration space (quick: quotient of the AVX-512 bit groups; thorough: all consistent assignments) x 64 entries",
     ),
 }
+
+
+# ---- amendments to the rule texts made when the workloads were strengthened (applied to the concatenated strings) ----
+def _amend(k, old, new):
+    r = CHECKS[k]["rule"]
+    assert old in r, (k, old)
+    CHECKS[k]["rule"] = r.replace(old, new)
+
+
+_amend("C05", "context memory filled with junk before init and placed at 0 or 8 modulo 16 (the type guarantees 8);",
+       "context memory filled with junk before init and placed at every multiple of 8 modulo 64 (the type guarantees 8); a fifth of the messages lie across a 4 GiB-aligned address;")
+_amend("C05", "one stream of 2^29+100 bytes per family (bit length beyond 32 bits; thorough also 2^31+53 and 2^32-77) against an oracle built on OpenSSL's block transforms; ",
+       "one stream of 2^31+2^20+100 bytes per family (thorough also 2^29+100 and 2^32-77), once in four pieces and once as 7 bytes + a single update of more than 2^31 bytes + an empty update + 1000 bytes, "
+       "against an oracle built on OpenSSL's block transforms; the base code also in the portable configuration (make arch=noarch: *_base_aliases.c, files the x86 build never compiles) through all three routes; ")
+_amend("C10", "one stream of 2^31+53 bytes per family (thorough also 2^29+100 and 2^32-77)",
+       "one stream of 2^31+2^20+53 bytes per family (thorough also 2^29+100 and 2^32-77) in the two shapes described under C05; also in the portable configuration (make arch=noarch)")
+_amend("C09", "per scan kernel two single run calls over more than 2^31 bytes of random data (hit just below / above 2^31) against an incremental model",
+       "per scan kernel three single run calls over more than 2^31 bytes of random data (hit just below / above 2^31, and trigger 0, which has a loop of its own) against an incremental model; "
+       "a fifth of the streams lie across a 4 GiB-aligned address; the base scan also in the portable configuration (make arch=noarch, rolling_hash2_base_aliases.c)")
+_amend("C07", "per family one stream with updates of 1, exactly 2^32 and 9 bytes (128-bit key; thorough both key sizes) against OpenSSL; ",
+       "per family one stream with updates of 1, exactly 2^32 and 9 bytes (128-bit key; thorough both key sizes) against OpenSSL, then that ciphertext decrypted in place with updates of 5, 3 GiB + 11 "
+       "and the remaining bytes; contexts at 0 and 8 modulo 16; ")
+_amend("C11", "evaluations = injected invalid submits, each compared byte-for-byte",
+       "a fifth of the out-of-range-flags submits carry a NULL buffer (on the isal_ route the documented NULL_SRC refusal is accepted as well; nothing may change either way); about one history in three "
+       "re-initialises the manager with jobs in flight and the abandoned contexts with isal_hash_ctx_init, after which they must behave like fresh ones; the base code also in the portable configuration "
+       "(make arch=noarch); evaluations = injected invalid submits, each compared byte-for-byte")
+_amend("C13", "The same cells also run on a FIPS_MODE build with SAFE_PARAM=n.",
+       "Half of the hash-submit cells continue a job whose FIRST segment was accepted while the module was operational (UPDATE or LAST arrives in the state under test); a quarter of the CBC / GCM / "
+       "hash-submit cells carry a zero-length message. The same cells also run on a FIPS_MODE build with SAFE_PARAM=n and, for the entry points that exist there, on the portable configuration "
+       "(make arch=noarch FIPS_MODE=y: fips/self_tests_generic.c; its AES group is always a stub because that configuration has no AES unit, its SHA group is real or a stub; the status word is the "
+       "function-local static found through the symbol table).")
+_amend("C14", "every 16-byte entry of the hash-key table as stored by precompute, E_K2(tweak).",
+       "every 16-byte entry of the hash-key table as stored by precompute, E_K2(tweak) and the 31 following per-block tweaks E_K2(tweak) x alpha^j.")
+_amend("C15", "Small random histories add the total_length check at every hand-back.",
+       "Small random histories add the total_length check at every hand-back. Per SIMD (algorithm, family) a manager whose lanes all hold single segments of at least 2^24 blocks at once (lanes+1, lanes-1 or 2 jobs, "
+       "so that the kernel starts on a submit or on a flush). The state-advanced histories also run on the portable configuration (make arch=noarch).")
+_amend("C17", "(isal_self_tests, isal_aes_keyexp_128 or isal_sha256_ctx_mgr_init)",
+       "(isal_self_tests, isal_aes_keyexp_128, isal_sha256_ctx_mgr_init, isal_aes_cbc_enc_128, or isal_aes_cbc_dec_192 with a zero-length message)")
+_amend("C17", "also on a ThreadSanitizer build. Per run:",
+       "also on a ThreadSanitizer build. The portable driver (fips/self_tests_generic.c, make arch=noarch FIPS_MODE=y: C11 atomics, usleep in the wait loop, which the controlled scheduler turns into the "
+       "yield point) runs under random controlled schedules, stress, the long-stall round and ThreadSanitizer as well. Per run:")
+_amend("C18", "(c) the same on a ThreadSanitizer build of the C layers (any report is a violation);",
+       "(c) the same on a ThreadSanitizer build of the C layers (any report is a violation), and the mixed workload on the FIPS_MODE build, plain and ThreadSanitizer (the wrappers have code and static storage of their own there);")
+_amend("C04", "compared byte for byte with the FIPS-197 schedule and its equivalent-inverse decryption schedule;",
+       "compared byte for byte with the FIPS-197 schedule and its equivalent-inverse decryption schedule, the two schedule arrays at arbitrary byte alignment in two thirds of the cases (the key-expansion API states none);")
+_amend("C12", "(21 length classes; hash managers with 1, 3 and 36 jobs)",
+       "(21 length classes; hash managers with 1, 3 and 36 jobs and three segmented messages that carry, complete and pad partial blocks; GCM with tag lengths 8/12/16 and AAD lengths 0/1/16/33/64)")
+_amend("C06", "evaluations = library calls checked against the sequential job-accounting model;",
+       "about one history in three re-initialises the manager with jobs in flight; in a third of the histories one context lives at a 4 GiB-aligned address; the base code also in the portable configuration "
+       "(make arch=noarch); evaluations = library calls checked against the sequential job-accounting model;")
